@@ -128,10 +128,17 @@ class Registry:
             i, j = vals.concrete_int(a[0]), vals.concrete_int(a[1])
             effs = [e for e in it.path.effects if e[0] != "Fs"]
             if i is None or j is None or i >= len(effs) or j >= len(effs[i]):
-                return NONE
+                return vals.BOTTOM
             return effs[i][j]
 
         self.spec_natives["effect_arg"] = _effect_arg
+        def _ascii_fold(it, a, k):
+            from .strings import unary_uf
+
+            x = a[0].val if isinstance(a[0], VOpt) else a[0]
+            return unary_uf(it, "str.translate", x, lambda s_, r: [z3.Length(r) == z3.Length(s_)])
+
+        self.spec_natives["ascii_fold"] = _ascii_fold
         self.spec_natives["implies"] = lambda it, a, k: VBool(z3.Implies(it.truthy(a[0]), it.truthy(a[1])))
         def _struct_resolver(qualname):
             ci = self.repo.lookup_class(qualname)
